@@ -124,6 +124,9 @@ OBJECT_PAIRS = [
     # a call-site name that is also the parameter of a lambda in the same piece of inline Python (the `n=n` idiom)
     ('Int = /[0-9]/ |> `int`\nItem = /[a-z]/\nAngle(p) = "<" >> p << ">"\nVal(v) = "<" >> `v` << ">"\nstart = let n = Int in [Angle(Item* where `lambda items, n=n: len(items) == n`), Val(`(lambda n: n + 1)(n)`)]\n',
      'Int = /[0-9]/ |> `int`\nItem = /[a-z]/\nstart = let n = Int in ["<" >> (Item* where `lambda items, n=n: len(items) == n`) << ">", "<" >> `(lambda n: n + 1)(n)` << ">"]\n'),
+    # the same idiom with a class field whose name is also a global of the module (a rule), in an argument expression
+    ('start = Span+\nclass Span {{ start: Int << ":"; stop: Paren(Int where `lambda v, start=start: v != start`) }}\nParen(x) = "(" >> x << ")"\nInt = /[0-9]+/ |> `int`\n'.replace('{{', '{').replace('}}', '}'),
+     'start = Span+\nclass Span {{ start: Int << ":"; stop: "(" >> (Int where `lambda v, start=start: v != start`) << ")" }}\nInt = /[0-9]+/ |> `int`\n'.replace('{{', '{').replace('}}', '}')),
     # a class with parameters whose name is that of a built-in expression constructor
     ('class List(item) {{ items: "[" >> (item /? ",") << "]" }}\nclass Opt(x) {{ value: Some(x) | "none" }}\nInt = /[0-9]/ |> `int`\nstart = List(Int) | Opt(x=Int)\n'.replace('{{', '{').replace('}}', '}'),
      'class List {{ items: "[" >> (Int /? ",") << "]" }}\nclass Opt {{ value: Some(Int) | "none" }}\nInt = /[0-9]/ |> `int`\nstart = List | Opt\n'.replace('{{', '{').replace('}}', '}')),
@@ -134,7 +137,7 @@ OBJECT_PAIRS = [
     ('T(a) = [`a`, /[a-z]?/]\nU(a, b) = `(a, b)`\nstart = [T(`1, 2`), U(b=`3, 4`, a=`[i for i in (1, 2)]`), T(a=`5, `)]\n',
      'start = [[`(1, 2)`, /[a-z]?/], `([i for i in (1, 2)], (3, 4))`, [`(5, )`, /[a-z]?/]]\n'),
 ]
-OBJECT_INPUTS = ['07!y', '7!x', '07!x', '7!y', '', 'ab', 'aab', 'abab!', 'aabab', 'a', '2<ab><>', '1<a><>', '2<a><>', '[1,2]', '[1,2,]', '12', 'none', '[]']
+OBJECT_INPUTS = ['07!y', '7!x', '07!x', '7!y', '', 'ab', 'aab', 'abab!', 'aabab', 'a', '2<ab><>', '1<a><>', '2<a><>', '[1,2]', '[1,2,]', '12', 'none', '[]', '1:(1)', '1:(2)3:(3)', '1:(2)']
 BYTES_INPUTS = [b'ab', b'abab', b'abc', b'a', b'aa', b'aab', b'b', b'c', b'abca', b'', b'cab', b'ba']
 
 
